@@ -122,7 +122,7 @@ func (st *state) exec(op string) (res string) {
 		return astFacts()
 	case "seq":
 		return replaySeq(op)
-	case "trace", "cachelen":
+	case "trace", "traceU", "cachelen":
 		// an observed history of the real code (session tier): the line IS the implementation's behaviour,
 		// the specification judges it
 		return "accept"
@@ -199,6 +199,27 @@ func astFacts() string {
 		}
 		return true
 	})
+	// the statement after `flight, ok := ...execIfMissing(...)` is `if !ok { go func() {...}() }`: the caller that
+	// published a flight starts its goroutine before anything else can make it return (model: pc `won` has no
+	// other action than `spawn`)
+	spawnFollows := false
+	for i, st := range prep.Body.List {
+		as, ok := st.(*ast.AssignStmt)
+		if !ok || len(as.Rhs) != 1 {
+			continue
+		}
+		call, ok := as.Rhs[0].(*ast.CallExpr)
+		if !ok || !strings.HasSuffix(str(call.Fun), "execIfMissing") {
+			continue
+		}
+		if i+1 < len(prep.Body.List) {
+			if is, ok := prep.Body.List[i+1].(*ast.IfStmt); ok && str(is.Cond) == "!ok" && is.Else == nil && len(is.Body.List) == 1 {
+				if _, ok := is.Body.List[0].(*ast.GoStmt); ok {
+					spawnFollows = true
+				}
+			}
+		}
+	}
 	unprep := false
 	ast.Inspect(execq, func(n ast.Node) bool {
 		cc, ok := n.(*ast.CaseClause)
@@ -220,8 +241,8 @@ func astFacts() string {
 		unprep = evictAt >= 0 && retryAt > evictAt
 		return true
 	})
-	return fmt.Sprintf("closure-adds=%d defer-close-first=%v err-assign=%d removes=%d remove-by-key=%v waits-done=%v waits-ctx=%v unprepared-evicts-then-retries=%v",
-		closureAdds, deferFirst, errAssign, removes, removeByKey, waitsDone, waitsCtx, unprep)
+	return fmt.Sprintf("closure-adds=%d defer-close-first=%v err-assign=%d removes=%d remove-by-key=%v waits-done=%v waits-ctx=%v unprepared-evicts-then-retries=%v spawn-follows-publish=%v",
+		closureAdds, deferFirst, errAssign, removes, removeByKey, waitsDone, waitsCtx, unprep, spawnFollows)
 }
 
 // ---------- generators ----------
